@@ -9,7 +9,7 @@ use std::time::Duration;
 
 pub static PROP: Prop = Prop {
     id: "C05",
-    rule: "cases: (a) exhaustive: every sequence of length <= L over a 23-symbol alphabet of token classes {number, string, a multi-byte string, a bare multi-byte name character, strings spelling `,` and `:`, bool, name (a name before `(` is a function name), ( ) [ ] { } , ; ? : prefix-only `!`, infix-only `*`, prefix+infix `-`, postfix `++`, `not`, word infix `in`}, rendered with single blanks (L = 5 quick, 6 thorough); (b) corruptions: a valid program from the flat generator with 1-3 edits at token level (delete / insert / replace / swap a token, truncate) or at character level (delete a character, insert a structural character, unbalance a quote, splice `e` `.` into a number); (c) number-shaped text (1-34 digits, optional fraction, then junk from the number alphabet: e9, E5, e+3, .5, .., .1.2 ...) embedded in a program; a non-blank `whitespace` character (form feed, vertical tab, NBSP, U+2003, NEL, BOM) between a function name and `(` plus one more structural edit; (d) in fresh child processes: word operators registered at run time (over, pct, xor ... and spellings that are no identifiers: is-not, ~=, @@, не), the same short token sequences around them parsed before and after the registration, each judged against the operator table in force. A quarter of the rejected inputs are also run through execute() with a context that binds a variable under the input's own text (it must be an error there too). In three races a registered infix / prefix / postfix word operator is re-registered thousands of times by one thread while three others parse an input in which that operator lacks its operand: every parse must be an error. Oracle (one-directional): if a lenient, nondeterministic recogniser of the documented grammar (optional `;` after any statement, optional trailing comma in list and map, any number of postfix operators, `not` as prefix or as negation marker) finds NO reading, parse_expression must return Err; a lexical error (unterminated string, malformed number) counts as no reading. Nothing is asserted when the recogniser accepts. Non-trivial: the recogniser rejects the input and it is a near-miss (some single-token deletion is accepted, or it came from a valid program by <= 3 edits); distinct by token-class sequence.",
+    rule: "cases: (a) exhaustive: every sequence of length <= L over a 23-symbol alphabet of token classes {number, string, a multi-byte string, a bare multi-byte name character, strings spelling `,` and `:`, bool, name (a name before `(` is a function name), ( ) [ ] { } , ; ? : prefix-only `!`, infix-only `*`, prefix+infix `-`, postfix `++`, `not`, word infix `in`}, rendered with single blanks (L = 5 quick, 6 thorough); (b) corruptions: a valid program from the flat generator with 1-3 edits at token level (delete / insert / replace / swap a token, truncate) or at character level (delete a character, insert a structural character, unbalance a quote, splice `e` `.` into a number); (c) number-shaped text (1-34 digits, optional fraction, then junk from the number alphabet: e9, E5, e+3, .5, .., .1.2 ...) embedded in a program; a non-blank `whitespace` character (form feed, vertical tab, NBSP, U+2003, NEL, BOM) between a function name and `(` plus one more structural edit; (d) in fresh child processes: word operators registered at run time (over, pct, xor ... and spellings that are no identifiers: is-not, ~=, @@, не; symbolic operators that extend a built-in one, also with a character outside the operator characters: =~, **, <=>, -#), the same short token sequences around them parsed before and after the registration, each judged against the operator table in force. A quarter of the rejected inputs are also run through execute() with a context that binds a variable under the input's own text (it must be an error there too). In three races a registered infix / prefix / postfix word operator is re-registered thousands of times by one thread while three others parse an input in which that operator lacks its operand: every parse must be an error. Oracle (one-directional): if a lenient, nondeterministic recogniser of the documented grammar (optional `;` after any statement, optional trailing comma in list and map, any number of postfix operators, `not` as prefix or as negation marker) finds NO reading, parse_expression must return Err; a lexical error (unterminated string, malformed number) counts as no reading. Nothing is asserted when the recogniser accepts. Non-trivial: the recogniser rejects the input and it is a near-miss (some single-token deletion is accepted, or it came from a valid program by <= 3 edits); distinct by token-class sequence.",
     assumptions: &[
         "the recogniser reads the grammar as leniently as the statement allows, so a rejection means no reading exists; a trailing comma in a call is NOT among the stated leniencies and is treated as malformed",
         "inputs with more than 62 tokens are outside the recogniser's range and assert nothing",
@@ -272,7 +272,7 @@ fn history_case(src: &mut Src, st: &mut Stats, env: &Env) -> CaseResult {
     let mut names = vec![];
     for i in 0..nops {
         let kind = *src.choose(&["infix", "prefix", "postfix"]);
-        let name = *src.choose(&["over", "pct", "xor", "mod", "nand", "sq", "is-not", "~=", "@@", "не"]);
+        let name = *src.choose(&["over", "pct", "xor", "mod", "nand", "sq", "is-not", "~=", "@@", "не", "=~", "**", "<=>", "-#"]);
         if names.contains(&name.to_string()) {
             continue;
         }
